@@ -375,3 +375,13 @@ Proof.
   intros. unfold element_activity. rewrite flat_map_concat_map. f_equal.
   apply map_ext. intros [a ab]. reflexivity.
 Qed.
+
+(* a sample is the concatenation of its constituents' contributions: no occurrence replaces another *)
+Theorem sample_is_sum_of_constituents : forall rows m env t cs1 cs2,
+  sample_activity rows m env t (cs1 ++ cs2) = (sample_activity rows m env t cs1 ++ sample_activity rows m env t cs2)%list
+  /\ (forall cst, sample_activity rows m env t [cst] = constituent_activity rows m env t cst).
+Proof.
+  intros. split.
+  - unfold sample_activity. apply flat_map_app.
+  - intro cst. unfold sample_activity. simpl. apply app_nil_r.
+Qed.
